@@ -53,7 +53,7 @@ def main():
         rc3, out3 = sh('git -C /repo apply --3way %s' % patch)
         meta['apply_note'] = 'applied with --3way: ' + out3[-200:]
         if rc3 != 0:
-            sh('git -C /repo checkout -- .')
+            sh('git -C /repo reset -q --hard HEAD')
             print('patch does not apply to the current /repo:', out[-300:])
             meta['checks'] = 'patch no longer applies to /repo HEAD'
             return finish(name, patch, demo, meta)
@@ -69,7 +69,7 @@ def main():
             results[p] = {'exit': rc, 'wall_s': round(time.time() - t0, 1), 'lines': [l[:300] for l in lines[:12]]}
             print('   vcheck', p, 'exit', rc, '|', '; '.join(l[:160] for l in lines[:3]))
     finally:
-        sh('git -C /repo checkout -- .')
+        sh('git -C /repo reset -q --hard HEAD')
     meta['checks'] = results
     meta['detected_by'] = [p for p, r in results.items() if r['exit'] == 1]
     return finish(name, patch, demo, meta)
